@@ -8,6 +8,9 @@ HARNESSES = {
     'holders_seq': {'san': 'asan'},
     'unique_seq': {'san': 'asan'},
     'bits_seq': {'san': 'asan'},
+    'rbtree_seq': {'san': 'asan'},
+    'interval_seq': {'san': 'asan'},
+    'pheap_seq': {'san': 'asan'},
     'slab_seq': {'san': 'asan'},
     'slab_seq_track': {'san': 'asan', 'source': 'slab_seq.cpp', 'cxxflags': ['-DFRG_SLAB_TRACK_REGIONS']},
     # basic_string memcpy()s from a null buffer with length 0 (default-constructed strings): no listed property
@@ -234,6 +237,63 @@ PROPS['C04'] = {
     'level_note': 'fault points are the calls to Policy::map only (the only fallible call the pool makes); base histories are a fixed deterministic family',
     'technique': 'fault-injection enumeration over generated histories (single and double map() failures) with a model-unchanged oracle',
     'assumptions': ['single thread', 'map() is the only operation that can fail'],
+}
+
+RM_TAGS = ['fixrm-%s-%s' % (s, k) for s in 'LR' for k in ('sibling-red', 'nephews-black-parent-red', 'nephews-black-parent-black', 'far-nephew-red', 'near-nephew-red')]
+INS_TAGS = ['fixins-%s-%s' % (s, k) for s in 'LR' for k in ('uncle-red', 'outer', 'inner')]
+PROPS['C06'] = {
+    'runs': [{'harness': 'rbtree_seq',
+              'quick': {'enum': True, 'rc': rc(8000, sizes=[60, 120, 250])},
+              'thorough': {'enum': True, 'rc': rc(40000, sizes=[60, 120, 250, 500]), 'fuzz': {'seconds': 120}}}],
+    'rule': 'keyed tree (comparator on the key only; key universes 8, 64, 65536 so duplicates are common) and order tree (insert(before, x) with before = any contained '
+            'node or null): histories of insert / remove of any contained node / re-insertion of removed nodes, up to ~300 nodes; enumeration: every insertion '
+            'order of n <= 5 (thorough 6) distinct keys and every key sequence over {0,1,2} with duplicates, each followed by every removal order. Oracle after every '
+            'operation: reference vector in stable sorted (resp. positional) order == first()+successor walk == in-order walk over left/right == reversed predecessor '
+            'walk; predecessor(successor(x)) == x; parent links match child links; root black, no red node with a red child, equal black heights, height <= '
+            '2*log2(n+1); a removed node has its five link fields null and can be inserted again. Non-trivial: >= 1 removal of a node with two children and >= 1 '
+            'removal from a tree of size >= 4; the histogram classifies every insert/remove fix-up case (mirrored variants separately); distinct = hash of the history.',
+    'required_tags': RM_TAGS + INS_TAGS + ['rm-two-children', 'rm-root', 'order-insert-before', 'order-insert-last', 'reinsert-removed-node', 'keyed', 'order', 'size>100'],
+    'min_cases': {'quick': 30000, 'thorough': 600000},
+    'level_text': 'exhaustive over all insertion x removal orders up to 5 (6) nodes incl. duplicates, generated histories up to ~300 nodes against a reference sequence; held on everything generated',
+    'level_note': 'colours are read from the public hook field; the colour of a removed node is not asserted',
+    'technique': 'model-based property testing with structural invariants (exhaustive small scopes + rapidcheck histories + libFuzzer)',
+    'assumptions': ['nodes are inserted into at most one tree at a time'],
+}
+
+PROPS['C07'] = {
+    'runs': [{'harness': 'interval_seq',
+              'quick': {'enum': True, 'rc': rc(8000, sizes=[60, 120, 250])},
+              'thorough': {'enum': True, 'rc': rc(40000, sizes=[60, 120, 250, 500]), 'fuzz': {'seconds': 120}}}],
+    'rule': 'histories of insert [lo,hi] (lo <= hi; universe 0..7 so duplicates, nested, touching and point intervals are common, or 0..100000), remove of any '
+            'stored interval, re-insertion of removed nodes, and queries; after every update over the small universe ALL 36 two-argument queries, all 8 one-argument '
+            'queries and three outside/spanning queries are asked (a wrong subtree_max cannot hide); enumeration: every sequence of <= 3 (thorough 4) intervals over '
+            'endpoints 0..3, every single removal, all queries after every step. Oracle: the callback runs exactly once for every stored interval with lo <= ub and lb <= hi '
+            '(linear scan) and for no other; the one-argument form equals lb = ub. Non-trivial: a query on a tree of >= 3 intervals whose answer is neither empty '
+            'nor everything, asked after >= 1 removal; distinct = hash of the decoded history.',
+    'required_tags': ['point-interval', 'duplicate-interval', 'nested-interval', 'touching-intervals', 'small-universe', 'large-universe', 'scripted', 'reinsert-removed-node'],
+    'min_cases': {'quick': 20000, 'thorough': 400000},
+    'level_text': 'exhaustive over a small endpoint universe (all insertion sequences, single removals, all queries) plus generated histories against a linear scan; held on everything generated',
+    'level_note': 'trusts the linear-scan reference',
+    'technique': 'model-based property testing (exhaustive small universe + rapidcheck histories + libFuzzer) against a linear-scan oracle',
+    'assumptions': ['lo <= hi and lb <= ub'],
+}
+PROPS['C08'] = {
+    'runs': [{'harness': 'pheap_seq',
+              'quick': {'enum': True, 'rc': rc(8000, sizes=[60, 120, 250])},
+              'thorough': {'enum': True, 'rc': rc(40000, sizes=[60, 120, 250, 500]), 'fuzz': {'seconds': 120}}}],
+    'rule': 'histories of push / pop / remove over priorities from a tiny range (ties), ascending, descending or random; remove picks its victim by position in the '
+            'traversal of the hook links, so root, first child, middle sibling, last sibling, only child and leaves are explicit choices; removed elements are pushed '
+            'again; every case ends with a full drain; enumeration: all push sequences over {0,1,2} up to 6 (thorough 7) elements x every single remove x drain. Oracle '
+            'after every operation: empty() iff reference empty, top() contained and ordered before no contained element, the elements reachable over child/sibling '
+            'equal the reference set, every backlink consistent, no child ordered after its parent, pop removed exactly top(), remove(x) exactly x, removed hooks reset; '
+            'the drain is non-increasing and a permutation. Non-trivial: a remove of a non-root element that has children, or a pop with >= 3 children; '
+            'distinct = hash of the decoded history.',
+    'required_tags': ['remove-root', 'remove-first-child', 'remove-middle-sibling', 'remove-last-sibling', 'remove-only-child', 'remove-leaf', 'pop-odd-children', 'pop-even-children', 'prio-mode-0', 'prio-mode-1', 'prio-mode-2', 'prio-mode-3', 'repush-removed-element'],
+    'min_cases': {'quick': 20000, 'thorough': 400000},
+    'level_text': 'exhaustive over small push sequences with ties x single removals plus generated histories against a reference multiset with structural invariants; held on everything generated',
+    'level_note': 'the hook fields child/backlink/sibling are public and read by the oracle',
+    'technique': 'model-based property testing (exhaustive small scopes + rapidcheck histories + libFuzzer) against a reference multiset',
+    'assumptions': ['elements are in at most one heap'],
 }
 
 NOT_APPLICABLE = {}
